@@ -165,7 +165,7 @@ Print Assumptions C20_compare_overflow_refuted.
 Theorem C20_compare_wide_variant : forall a b : list Z,
   compare_natural_wide a b = Ok (key_cmp (key a) (key b)) /\
   (runs_fit a -> runs_fit b -> compare_natural a b = compare_natural_wide a b).
-Proof. intros a b. split; [apply compare_natural_wide_key | apply compare_natural_agrees_wide]. Qed.
+Proof. exact compare_natural_wide_variant. Qed.
 Print Assumptions C20_compare_wide_variant.
 
 (* "a2b" < "a12b" < "a12c", "a007" ~ "a7", "12" < "a", "/" < "12"; a 25-digit run with 22 leading
@@ -184,3 +184,38 @@ Proof.
   unfold runs_fit, short_runs. cbv zeta.
   repeat split; try (vm_compute; reflexivity); intros H; vm_compute in H; discriminate.
 Qed.
+
+(* ================================================================ SUPPLEMENTARY
+   Not part of the text of C20: the two remaining exported functions of package mstr, Lines and
+   Split (wrappers around strings.Split / strings.TrimSuffix, which are modelled by hand from the
+   standard library's documentation and tied to the real ones by the correspondence runs only). *)
+From Mds Require Import Mstr.MstrLinesModel Mstr.MstrLinesProofs.
+
+(* Lines of the empty string is nil; for a non-empty s: a non-nil, non-empty list of newline-free
+   strings which, joined by newlines, give s without one trailing newline *)
+Theorem C20supp_lines : lines [] = Ok Nil /\ forall s : list Z, s <> [] ->
+  exists ls, lines s = Ok (Strs ls) /\ ls <> [] /\ join [10] ls = trim_suffix s [10] /\
+    Forall (fun l => ~ In 10 l) ls.
+Proof. exact lines_all. Qed.
+Print Assumptions C20supp_lines.
+
+(* Split of the empty string is nil; for non-empty s and sep: a non-nil, non-empty list which
+   joined by sep gives s (for a one-byte sep no piece contains it); with the empty separator:
+   pieces of 1 to 4 bytes whose concatenation is s *)
+Theorem C20supp_split : (forall sep, split [] sep = Ok Nil) /\
+  (forall s sep : list Z, s <> [] -> sep <> [] ->
+     exists ps, split s sep = Ok (Strs ps) /\ ps <> [] /\ join sep ps = s /\
+       (forall c, sep = [c] -> Forall (fun p => ~ In c p) ps)) /\
+  (forall s : list Z, s <> [] ->
+     exists ps, split s [] = Ok (Strs ps) /\ concat ps = s /\ Forall (fun p => (1 <= length p <= 4)%nat) ps).
+Proof. exact split_all. Qed.
+Print Assumptions C20supp_split.
+
+(* a LF LF b LF -> [a; empty; b];  LF -> [empty];  a,b,,c split on the comma;  aaa split on aa =
+   [empty; a];  a U+00E9 0xFF exploded = [a; U+00E9; 0xFF] *)
+Example C20supp_ex :
+  lines [97; 10; 10; 98; 10] = Ok (Strs [[97]; []; [98]]) /\ lines [10] = Ok (Strs [[]]) /\
+  split [97; 44; 98; 44; 44; 99] [44] = Ok (Strs [[97]; [98]; []; [99]]) /\
+  split [97; 97; 97] [97; 97] = Ok (Strs [[]; [97]]) /\
+  split [97; 195; 169; 255] [] = Ok (Strs [[97]; [195; 169]; [255]]).
+Proof. repeat split; vm_compute; reflexivity. Qed.
